@@ -14,19 +14,21 @@ ENTRY = {'coq_dir': 'C07',
          'substream through its real ConnectionHandle (remote accepts / refuses / resets / stalls until the timeout / never answers), the remote '
          'opens a substream under a main, fallback, unadvertised or unknown name (negotiates / stalls / never answers), force-close, a protocol '
          "drops its handle, a protocol's receiver is dropped, the manager's receiver is dropped, the remote closes (yamux close or socket close), "
-         'every handle dropped while an inbound substream waits (the `None` command races the refused permit), any of them with one protocol channel '
-         'full (observed before the channel is drained: has the task finished, has the manager been told); one case in four with a substream-open '
-         'timeout that is never reached, so unanswered negotiations stay pending while the connection is closed around them; after every operation '
-         '(loop polled until nothing is outstanding) compared with coq/C07/Loop.v: return code, events per protocol, manager notices, how start() '
-         'returned (running / Ok / Err / panicked) and the exit arm the real loop took (read from its debug log; the messages are extracted from the '
-         'source, harness/src/gen_c07_msgs.rs). (iv) report-level names: report_connection_established then protocol_codec under every name the set '
-         'offers for negotiation (no panic), report_substream_open under main / fallback / unknown names. (iii) back-pressure, one case per 3 '
-         'report-level cases: 1-4 protocols with real mpsc channels of capacity 1-3 that are drained only when the case says so, up to 6 connections '
-         '= real ProtocolSets whose reports (established / substream-open failure / closed) run as tasks that wait for room; accept, loop events, '
-         'protocol receives k events, protocol exits; after every operation the completed reports, the manager channel, the received events, queue '
-         'lengths and the phase of every connection are compared with the model coq/C07/Block.v (over coq/Ts/Report.v). (i) report level, one case '
-         'per --cases: 2-10 operations on the real ProtocolSet built the way TransportHandle::protocol_set builds it (1-5 protocols): kill a '
-         'protocol receiver / the manager receiver, report_connection_established, report_connection_closed, report_substream_open_failure, and '
+         'RACES: any subset of {a holder force-closes, the remote closes the socket, every handle is dropped, an inbound substream arrives} happens '
+         "before the loop is polled again, so several select! branches are ready and the exit arm is the scheduler's choice (the model lists the "
+         'arms that can win; the observed one must be among them and every one of them reports), any of them with one protocol channel full '
+         '(observed before the channel is drained: has the task finished, has the manager been told); one case in four with a substream-open timeout '
+         'that is never reached, so unanswered negotiations stay pending while the connection is closed around them; after every operation (loop '
+         'polled until nothing is outstanding) compared with coq/C07/Loop.v: return code, events per protocol, manager notices, how start() returned '
+         '(running / Ok / Err / panicked) and the exit arm the real loop took (read from its debug log; the messages are extracted from the source, '
+         'harness/src/gen_c07_msgs.rs). (iv) report-level names: report_connection_established then protocol_codec under every name the set offers '
+         'for negotiation (no panic), report_substream_open under main / fallback / unknown names. (iii) back-pressure, one case per 3 report-level '
+         'cases: 1-4 protocols with real mpsc channels of capacity 1-3 that are drained only when the case says so, up to 6 connections = real '
+         'ProtocolSets whose reports (established / substream-open failure / closed) run as tasks that wait for room; accept, loop events, protocol '
+         'receives k events, protocol exits; after every operation the completed reports, the manager channel, the received events, queue lengths '
+         'and the phase of every connection are compared with the model coq/C07/Block.v (over coq/Ts/Report.v). (i) report level, one case per '
+         '--cases: 2-10 operations on the real ProtocolSet built the way TransportHandle::protocol_set builds it (1-5 protocols): kill a protocol '
+         'receiver / the manager receiver, report_connection_established, report_connection_closed, report_substream_open_failure, and '
          'report_connection_closed with one protocol channel full (is the manager told before the protocols are served?); after every operation the '
          'result and everything that arrived on every channel are compared with the extracted model. (ii) end to end, one scenario per 12 (quick) / '
          '15 (thorough) report-level cases, 24 in parallel: two real nodes over loopback TCP or (one in three) WebSocket through a cuttable proxy, '
